@@ -72,6 +72,12 @@ struct DirectT // formatted at the call site (documented opt-in)
   int x;
   std::string s;
 };
+template <size_t N>
+struct DefSized // trivially copyable deferred-format type of exactly N bytes (small, cache-line sized, larger than any inline threshold)
+{
+  uint32_t tag;
+  unsigned char pad[N - sizeof(uint32_t)];
+};
 enum PlainEnum : int
 {
   PE_A = 0,
@@ -100,6 +106,22 @@ struct fmtquill::formatter<ut::DefTrivial>
 };
 template <>
 struct quill::Codec<ut::DefTrivial> : quill::DeferredFormatCodec<ut::DefTrivial>
+{
+};
+template <size_t N>
+struct fmtquill::formatter<ut::DefSized<N>>
+{
+  constexpr auto parse(format_parse_context& ctx) { return ctx.begin(); }
+  auto format(ut::DefSized<N> const& d, format_context& ctx) const
+  {
+    ut::note_fmt_thread();
+    uint32_t sum = 0;
+    for (unsigned char c : d.pad) sum = sum * 31u + c;
+    return fmtquill::format_to(ctx.out(), "DZ{}({},{})", N, d.tag, sum);
+  }
+};
+template <size_t N>
+struct quill::Codec<ut::DefSized<N>> : quill::DeferredFormatCodec<ut::DefSized<N>>
 {
 };
 template <>
@@ -491,6 +513,114 @@ struct G<ut::DefTrivial>
   static Owner const& arg(Owner const& o) { return o; }
   static void scramble(Owner& o) { memset(&o, 0x21, sizeof o); }
 };
+template <size_t N>
+struct G<ut::DefSized<N>>
+{
+  using Owner = ut::DefSized<N>;
+  static constexpr bool alloc_free_class = true;
+  static Owner make(Rng& r)
+  {
+    Owner o{};
+    o.tag = static_cast<uint32_t>(r.next());
+    for (auto& c : o.pad) c = static_cast<unsigned char>(r.next());
+    return o;
+  }
+  static Owner const& arg(Owner const& o) { return o; }
+  static void scramble(Owner& o) { memset(&o, 0x21, sizeof o); }
+};
+// composites holding C strings: the pointed-to storage is owned next to the value (freed by scramble)
+static CstrOwner make_nonnull_cstr(Rng& r)
+{
+  CstrOwner o;
+  do o = G<char const*>::make(r); while (!o.p);
+  return o;
+}
+struct OptCstrOwner
+{
+  CstrOwner in;
+  std::optional<char const*> v;
+};
+template <>
+struct G<std::optional<char const*>>
+{
+  using Owner = OptCstrOwner;
+  static constexpr bool alloc_free_class = true;
+  static Owner make(Rng& r)
+  {
+    Owner o;
+    if (!r.chance(1, 4))
+    {
+      o.in = make_nonnull_cstr(r);
+      o.v = o.in.p;
+    }
+    return o;
+  }
+  static std::optional<char const*> const& arg(Owner const& o) { return o.v; }
+  static void scramble(Owner& o) { G<char const*>::scramble(o.in); o.v.reset(); }
+};
+template <typename B>
+struct PairCstrOwner
+{
+  CstrOwner in;
+  std::pair<char const*, B> v;
+};
+template <typename B>
+struct G<std::pair<char const*, B>>
+{
+  using Owner = PairCstrOwner<B>;
+  static constexpr bool alloc_free_class = G<B>::alloc_free_class;
+  static Owner make(Rng& r)
+  {
+    Owner o;
+    o.in = make_nonnull_cstr(r);
+    o.v = {o.in.p, G<B>::arg(G<B>::make(r))};
+    return o;
+  }
+  static std::pair<char const*, B> const& arg(Owner const& o) { return o.v; }
+  static void scramble(Owner& o) { G<char const*>::scramble(o.in); o.v.first = ""; }
+};
+struct TupCstrOwner
+{
+  CstrOwner a, b;
+  std::tuple<char const*, int32_t, char const*> v;
+};
+template <>
+struct G<std::tuple<char const*, int32_t, char const*>>
+{
+  using Owner = TupCstrOwner;
+  static constexpr bool alloc_free_class = true;
+  static Owner make(Rng& r)
+  {
+    Owner o;
+    o.a = make_nonnull_cstr(r);
+    o.b = make_nonnull_cstr(r);
+    o.v = {o.a.p, static_cast<int32_t>(r.next()), o.b.p};
+    return o;
+  }
+  static std::tuple<char const*, int32_t, char const*> const& arg(Owner const& o) { return o.v; }
+  static void scramble(Owner& o) { G<char const*>::scramble(o.a); G<char const*>::scramble(o.b); o.v = {"", 0, ""}; }
+};
+struct VecCstrOwner
+{
+  std::vector<CstrOwner> in;
+  std::vector<char const*> v;
+};
+template <>
+struct G<std::vector<char const*>>
+{
+  using Owner = VecCstrOwner;
+  static constexpr bool alloc_free_class = true;
+  static Owner make(Rng& r)
+  {
+    Owner o;
+    size_t n = r.below(5);
+    for (size_t i = 0; i < n; ++i) o.in.push_back(make_nonnull_cstr(r));
+    for (auto const& c : o.in) o.v.push_back(c.p);
+    return o;
+  }
+  static std::vector<char const*> const& arg(Owner const& o) { return o.v; }
+  static void scramble(Owner& o) { for (auto& c : o.in) G<char const*>::scramble(c); o.v.clear(); }
+};
 template <>
 struct G<ut::DefString>
 {
@@ -616,9 +746,12 @@ struct Shape
   static constexpr quill::MacroMetadata sentinel_md{"shape.cpp:2", "fn", "SENTINEL {}", nullptr, quill::LogLevel::Info, quill::MacroMetadata::Event::Log};
   // C strings and char arrays cache their length in the thread's size cache (inline capacity 12): statements with more
   // than twelve of them are outside the property's no-allocation class (they are in the catalogue for C04)
-  static constexpr size_t cached_sizes = ((std::is_same_v<Ts, char const*> || std::is_array_v<Ts> ? 1 : 0) + ...);
+  static constexpr size_t cached_sizes = ((std::is_same_v<Ts, char const*> || std::is_array_v<Ts> ? 1 : std::is_same_v<Ts, std::optional<char const*>> || std::is_same_v<Ts, std::pair<char const*, int32_t>> ? 1 : std::is_same_v<Ts, std::tuple<char const*, int32_t, char const*>> ? 2 : std::is_same_v<Ts, std::vector<char const*>> ? 4 : 0) + ...);
   static constexpr bool alloc_free_class = (G<Ts>::alloc_free_class && ...) && cached_sizes <= 12;
   static constexpr bool has_direct = (std::is_same_v<Ts, ut::DirectT> || ...);
+  // a direct-format type nested in an optional: formatted at the call site only when engaged (no demand either way in
+  // alloc mode), and decoded as a string, which the optional formatter quotes and escapes (recorded finding class)
+  static constexpr bool nested_direct = (std::is_same_v<Ts, std::optional<ut::DirectT>> || ...);
 
   template <size_t... I>
   static void run_impl(char const* name, Rng& r, uint32_t reps, std::index_sequence<I...>)
@@ -647,9 +780,9 @@ struct Shape
           size_t d = 0;
           std::string got = msgs.empty() ? "<nothing>" : msgs[0];
           while (d < got.size() && d < expected.size() && got[d] == expected[d]) ++d;
-          violation("C04", msgs.size() == 2 && same_text(msgs[0], expected, unordered) ? "statement-after-it-derailed" : "async-message-differs-from-call-site-formatting",
+          violation("C04", msgs.size() == 2 && same_text(msgs[0], expected, unordered) ? "statement-after-it-derailed" : nested_direct ? "async-message-differs-from-call-site-formatting:direct-format-type-nested-in-composite" : "async-message-differs-from-call-site-formatting",
                     J{}.str("shape", name).str("got", got.substr(0, 300)).str("want", expected.substr(0, 300)).unum("first_difference_at", d).unum("messages", msgs.size()).str("sentinel", msgs.size() > 1 ? msgs[1].substr(0, 60) : "").boolean("accept_all_chars", g_accept_all));
-          g_failed = true;
+          if (!nested_direct || msgs.size() != 2 || msgs[1] != want_sentinel) g_failed = true;
         }
       }
       else if (g_mode == Mode::Codec)
@@ -675,9 +808,10 @@ struct Shape
         fmtquill::vformat_to(std::back_inserter(got), kFmt<N>.s, fmtquill::basic_format_args<fmtquill::format_context>{store.data(), store.size()});
         if (written != s || consumed != s || !canary_ok || !same_text(got, expected, unordered))
         {
-          violation("C04", !canary_ok ? "encode-wrote-outside-reserved-space" : written != s ? "encoded-bytes-differ-from-computed-size" : consumed != s ? "decoded-bytes-differ-from-computed-size" : "decoded-arguments-format-differently",
+          bool const only_text = canary_ok && written == s && consumed == s;
+          violation("C04", !canary_ok ? "encode-wrote-outside-reserved-space" : written != s ? "encoded-bytes-differ-from-computed-size" : consumed != s ? "decoded-bytes-differ-from-computed-size" : nested_direct ? "decoded-arguments-format-differently:direct-format-type-nested-in-composite" : "decoded-arguments-format-differently",
                     J{}.str("shape", name).unum("computed", s).unum("written", written).unum("consumed", consumed).boolean("canaries_intact", canary_ok).str("got", got.substr(0, 200)).str("want", expected.substr(0, 200)));
-          g_failed = true;
+          if (!(nested_direct && only_text)) g_failed = true;
         }
       }
       else
@@ -700,7 +834,7 @@ struct Shape
           violation("C11", "log-call-allocated-on-the-calling-thread", J{}.str("shape", name).unum("heap_allocations", heap).unum("mmaps", maps).unum("bytes", tl_alloc().heap_bytes));
           g_failed = true;
         }
-        if (!has_direct && fmt_during_call && fmt_tid_during == caller)
+        if (!has_direct && !nested_direct && fmt_during_call && fmt_tid_during == caller)
         {
           violation("C11", "deferred-type-formatted-on-the-calling-thread", J{}.str("shape", name).unum("formatter_calls_during_log_call", fmt_during_call));
           g_failed = true;
@@ -711,7 +845,7 @@ struct Shape
           g_failed = true;
         }
         g_logger->flush_log(0);
-        if (!has_direct && ut::g_fmt_calls.load() != fmt_before && ut::g_last_fmt_tid.load() != g_backend_tid)
+        if (!has_direct && !nested_direct && ut::g_fmt_calls.load() != fmt_before && ut::g_last_fmt_tid.load() != g_backend_tid)
         {
           violation("C11", "deferred-type-not-formatted-on-the-backend-thread", J{}.str("shape", name).unum("formatter_thread", ut::g_last_fmt_tid.load()).unum("backend_thread", g_backend_tid));
           g_failed = true;
@@ -761,6 +895,9 @@ static void register_shapes()
   SHAPE(str) SHAPE(sv) SHAPE(cstr) SHAPE(char[8]) SHAPE(char[1]) SHAPE(char[33])
   SHAPE(int32_t, double, str) SHAPE(str, str, str) SHAPE(cstr, cstr) SHAPE(sv, int64_t, sv, bool)
   SHAPE(ut::DefTrivial) SHAPE(ut::DefString) SHAPE(ut::DirectT)
+  // deferred-format types of growing size (inline thresholds, cache lines, larger than a page)
+  SHAPE(ut::DefSized<8>) SHAPE(ut::DefSized<64>) SHAPE(ut::DefSized<256>) SHAPE(ut::DefSized<264>) SHAPE(ut::DefSized<1024>) SHAPE(ut::DefSized<4104>)
+  SHAPE(ut::DefSized<520>, str, ut::DefSized<16>)
 #endif
 #if P(1)
   SHAPE(vec<int32_t>) SHAPE(vec<str>) SHAPE(vec<double>) SHAPE(vec<ut::Scoped>) SHAPE(std::deque<int64_t>) SHAPE(std::deque<str>)
@@ -776,6 +913,11 @@ static void register_shapes()
   SHAPE(std::tuple<int32_t, str, double>) SHAPE(std::tuple<str>) SHAPE(std::tuple<bool, char, uint64_t, str>)
   SHAPE(ms) SHAPE(ns) SHAPE(std::chrono::seconds) SHAPE(std::chrono::system_clock::time_point) SHAPE(std::filesystem::path)
   SHAPE(std::optional<str>, std::pair<int32_t, str>, ms)
+  // composite arguments that contain a size-cached element (C string), followed by further size-cached arguments: the
+  // running size-cache index has to be threaded through the composite codec
+  SHAPE(std::optional<cstr>) SHAPE(std::optional<cstr>, cstr) SHAPE(std::optional<cstr>, std::optional<cstr>, cstr, char[9])
+  SHAPE(std::pair<cstr, int32_t>, cstr) SHAPE(std::tuple<cstr, int32_t, cstr>, cstr, str) SHAPE(vec<cstr>, cstr) SHAPE(cstr, vec<cstr>, std::optional<cstr>, cstr)
+  SHAPE(std::optional<ut::DirectT>, cstr) SHAPE(ut::DirectT, cstr, ut::DirectT, char[5])
 #endif
 #if P(3)
   SHAPE(vec<vec<int32_t>>) SHAPE(vec<vec<str>>) SHAPE(std::map<str, vec<int32_t>>) SHAPE(std::map<int32_t, vec<str>>) SHAPE(vec<std::pair<int32_t, str>>)
